@@ -108,6 +108,19 @@ func zeroReflectValue() *StructV {
 // rvInner unboxes the payload of a reflect.Value under guard g.
 func rvInner(sv Value, g *Term) Value {
 	r := pruneRefUnder(sv.(*StructV).F[1].(*RefV), g)
+	if len(r.Alts) > 1 {
+		// a slot of a case list may hold a valid Value on some paths and the zero Value on others; the
+		// correlation with the case direction is data-dependent, so prefer the valid alternative(s)
+		var nn []RefAlt
+		for _, a := range r.Alts {
+			if _, ok := a.R.(*IfaceVal); ok {
+				nn = append(nn, a)
+			}
+		}
+		if len(nn) == 1 {
+			r = &RefV{Alts: nn}
+		}
+	}
 	if len(r.Alts) != 1 {
 		inconclusive("reflect.Value payload not unique: %s", valStr(r))
 	}
